@@ -49,7 +49,8 @@ from lib import common
 RUN = os.path.join(common.BUILD, "ocaml", "eval", "run")
 NPROC = 16
 CHUNK = 120                      # cases per generator/nevrun process (x3 programs)
-CHUNK_OF = {"tailrec": 24}       # the evaluator needs ~0.3 s for a 500-iteration tail loop
+CHUNK_OF = {"tailrec": 24}       # the evaluator needs ~0.2 s for a 400-iteration tail loop
+PROFILE_WEIGHT = {"tailrec": 0.35}
 ASAN_ENV = "detect_leaks=0:abort_on_error=0:exitcode=99:allocator_may_return_null=1"
 INT_RE = re.compile(r"^-?\d+$")
 UNH_RE = re.compile(r"unhandled (\w+) exception")
@@ -429,16 +430,19 @@ def run_evaldiff(ctx, profiles, ncases, tier, on_crash=None, variants=("o", "u",
     tmp = os.path.join(ctx.outdir, "evaldiff_tmp")
     shutil.rmtree(tmp, ignore_errors=True)
     os.makedirs(tmp, exist_ok=True)
-    per = max(1, ncases // len(profiles))
+    # profiles: names or (name, weight); the expensive tail-recursion profile gets a smaller share
+    profs = [(p, PROFILE_WEIGHT.get(p, 1.0)) if isinstance(p, str) else tuple(p) for p in profiles]
+    totw = sum(w for _, w in profs)
     jobs = []
-    for pi, prof in enumerate(profiles):
-        left, k = per, 0
+    for pi, (prof, wgt) in enumerate(profs):
+        left, k = max(1, int(round(ncases * wgt / totw))), 0
         while left > 0:
             n = min(CHUNK_OF.get(prof, CHUNK), left)
             seed = (ctx.seed * 1000003 + pi * 10007 + k) % 2000000011
             jobs.append((nevrun, tmp, prof, seed, n, tuple(overrides), tuple(variants), timeout))
             left -= n
             k += 1
+    jobs.sort(key=lambda j: 0 if j[2] in CHUNK_OF else 1)      # slow chunks first
     t0 = time.time()
     with concurrent.futures.ThreadPoolExecutor(NPROC) as ex:
         results = list(ex.map(run_chunk, jobs))
